@@ -751,6 +751,7 @@ pub fn run(out: &mut Out, tier: &str, seed: u64, prop: &str) {
                             if let Some((_, rest)) = pep508_rs::split_scheme(&u2) { let _ = pep508_rs::strip_host(rest); }
                         });
                         if helpers.is_err() { out.oracle_fail("C06", "a public URL text helper (split_scheme / split_extras / strip_host) panicked", serde_json::json!({"text": url})); }
+                        else { url_helpers_case(out, &mut rc, &url, &vars); }
                         out.stat("sliding_scalar.cases");
                     }
                 }
@@ -860,6 +861,7 @@ pub fn run(out: &mut Out, tier: &str, seed: u64, prop: &str) {
                     let ans = req_case(out, &mut w, &mut rc, prop, &text, &vars);
                     if !ans.starts_with("ok ") { out.oracle_fail("C18", &format!("a URL with the supported scheme `{sc}` behind / before a C0 control character is rejected: {ans}"), serde_json::json!({"text": text})); }
                     url_rule_oracle(out, &text, &format!(" {u}{tail}"), &ans, &vars);
+                    url_helpers_case(out, &mut rc, &u, &vars);
                     out.stat("c18.c0_controls_around_url");
                 }
             }
@@ -1107,6 +1109,16 @@ fn scheme_of(text: &str) -> Option<&str> {
     if !cs.next()?.is_ascii_alphabetic() { return None; }
     if !cs.all(|c| c.is_ascii_alphanumeric() || matches!(c, '+' | '-' | '.')) { return None; }
     Some(s)
+}
+
+/// `split_scheme` / `split_extras` of the implementation against the Lean model's, on one text
+fn url_helpers_case(out: &mut Out, rc: &mut ReqCases, text: &str, vars: &[(String, String)]) {
+    out.evaluations += 1;
+    let sch = match pep508_rs::split_scheme(text) { Some((a, b)) => format!("{}:{}", hex(a), hex(b)), None => "none".into() };
+    let ext = match pep508_rs::split_extras(text) { Some((a, b)) => format!("{}:{}", hex(a), hex(b)), None => "none".into() };
+    rc.lines.push(format!("urlhelpers2\t{}", hex(text)));
+    rc.envs.push(vars.to_vec());
+    out.impl_out.push(format!("scheme={sch} extras={ext}"));
 }
 
 /// the URL-end rule of C18, read from the property statement (not from the code)
